@@ -21,6 +21,10 @@ CLAIMS = {
          "kernel normal forms + attribute-table partial evaluation"),
  "C12": ("Narrow: decides the structural clauses only - alpha(psll) is the published cubic, alpha flows from psll on every Kaiser path, every kernel receives the DFT-even window kaiser(L+1, pi*alpha)[:-1] of its own L (also through caches), the window multiplies after detrending, fractional-bin frequency, double precision throughout. The dB figure itself is declined.",
          "normal-form comparison of the cubic, dispatch partial evaluation, memo-key slicing, dtype rule"),
+ "C13": ("Decides that no in-place effect can reach the caller's array (may-alias + interprocedural effect summaries over __init__, the dispatch methods and all kernels), that for the layouts 2xN, Nx2, 2x2, 1-D channel c is row/column c of the input, that on the NaN/Inf path the channel views are views of the record sanitised with nan=posinf=neginf=0, that each guarded quotient is guarded by exactly its divisor with a zero fallback, that roots of cancelling differences are protected, and that the data path is float64. Declines dtype/stride independence of the numbers and underflow.",
+         "alias/effect analysis over the call graph + abstract interpretation of __init__ + guard extraction from the attribute table"),
+ "C14": ("Decides race freedom and schedule independence of all 6 prange loops and 6 CUDA kernels (own-slot stores, no loop-carried scalar/reduction, helpers write only thread-private arrays, serial reduction), purity of the lazy attribute table (no in-place effect on cached/raw arrays), that plan/compute/compute_single_bin write only {_plan_cache once, config['Jdes'] in plan} and never the stored record, and that thread-layer defaults precede the first import. BLAS threading of the NumPy fallback is not analysed.",
+         "parallel-loop effect rules on the AST + alias/effect analysis + attribute read/write sets"),
  "C20": ("Decides all 88 table cells incl. the None matrix, component-wise interpolation over the result's own grid, that copy/pickle probes on a blank instance end in AttributeError (no recursion), that the ragged field D is stored with rank 1, and table purity. Declines value equality after a real pickle round trip.",
          "attribute-table partial evaluation, blank-instance partial evaluation, rank abstraction, alias analysis"),
 }
